@@ -11,6 +11,7 @@ import LiteFSVerif.Props.C03
 import LiteFSVerif.Gen.Facts
 import LiteFSVerif.Gen.Skel
 import LiteFSVerif.Model.ExpectedSkel
+import LiteFSVerif.Model.LockRange
 
 namespace LiteFSVerif.C11
 open LiteFSVerif LiteFSVerif.Locks LiteFSVerif.RWMutex
@@ -149,5 +150,48 @@ theorem C11_source_skeletons :
     Gen.Skel.DB_AcquireWriteLock = Expected.Skel.DB_AcquireWriteLock ∧
     Gen.Skel.DB_TryAcquireWriteLock = Expected.Skel.DB_TryAcquireWriteLock :=
   ⟨rfl, rfl, rfl⟩
+
+/-! ### byte ranges of the mount's lock requests -/
+
+open LiteFSVerif.LockRange in
+/-- a lock type is named by a byte range iff its byte lies in the range — for every range -/
+theorem C11_lock_range_exact (start end_ : Nat) (name : String) :
+    (name ∈ parseDatabaseLockRange start end_ ↔ ∃ b, (name, b) ∈ dbTypes ∧ start ≤ b ∧ b ≤ end_) ∧
+    (name ∈ parseSHMLockRange start end_ ↔ ∃ b, (name, b) ∈ shmTypes ∧ start ≤ b ∧ b ≤ end_) := by
+  constructor <;>
+  · simp only [parseDatabaseLockRange, parseSHMLockRange, parse, List.mem_map, List.mem_filter,
+      Bool.and_eq_true, decide_eq_true_eq]
+    constructor
+    · rintro ⟨⟨n, b⟩, ⟨hm, h1, h2⟩, rfl⟩; exact ⟨b, hm, h1, h2⟩
+    · rintro ⟨b, hm, h1, h2⟩; exact ⟨(name, b), ⟨hm, h1, h2⟩, rfl⟩
+
+open LiteFSVerif.LockRange LiteFSVerif.Gen.Facts in
+/-- the ranges SQLite locks name exactly the intended lock types: the PENDING byte, the RESERVED
+    byte, the SHARED range (510 bytes), the whole lock area (unlock at close), each WAL lock
+    byte; no range of the database file ever names LiteFS's own HALT byte, and all bytes are
+    distinct (constants regenerated from litefs.go) -/
+theorem C11_lock_ranges_of_sqlite :
+    parseDatabaseLockRange PENDING_BYTE PENDING_BYTE = ["pending"] ∧
+    parseDatabaseLockRange RESERVED_BYTE RESERVED_BYTE = ["reserved"] ∧
+    parseDatabaseLockRange SHARED_FIRST (SHARED_FIRST + SHARED_SIZE - 1) = ["shared"] ∧
+    parseDatabaseLockRange PENDING_BYTE (SHARED_FIRST + SHARED_SIZE - 1) = ["pending", "reserved", "shared"] ∧
+    parseDatabaseLockRange 0 LockTypeHalt = [] ∧
+    (∀ i, i < 9 → parseSHMLockRange (WAL_WRITE_LOCK + i) (WAL_WRITE_LOCK + i) = [((shmTypes.map (·.1))[i]?).getD ""]) ∧
+    parseSHMLockRange WAL_READ_LOCK0 WAL_READ_LOCK4 = ["read0", "read1", "read2", "read3", "read4"] ∧
+    ((dbTypes ++ shmTypes).map (·.2) ++ [LockTypeHalt]).Nodup := by
+  refine ⟨by decide, by decide, by decide, by decide, by decide, ?_, by decide, by decide⟩
+  intro i hi
+  have : i = 0 ∨ i = 1 ∨ i = 2 ∨ i = 3 ∨ i = 4 ∨ i = 5 ∨ i = 6 ∨ i = 7 ∨ i = 8 := by omega
+  rcases this with h | h | h | h | h | h | h | h | h <;> subst h <;> decide
+
+/-- the handlers that carry the translation (regenerated from fuse/database_node.go and
+    litefs.go): TryLocks / TryRLocks for write / read requests, EAGAIN on refusal, the blocking
+    lock's kind reported by the query -/
+theorem C11_source_skeletons_mount :
+    Gen.Skel.fn_ParseDatabaseLockRange = Expected.Skel.fn_ParseDatabaseLockRange ∧
+    Gen.Skel.fn_ParseSHMLockRange = Expected.Skel.fn_ParseSHMLockRange ∧
+    Gen.Skel.fn_lock = Expected.Skel.fn_lock ∧
+    Gen.Skel.fn_queryLock = Expected.Skel.fn_queryLock :=
+  ⟨rfl, rfl, rfl, rfl⟩
 
 end LiteFSVerif.C11
